@@ -1333,7 +1333,6 @@ class DiskRefsContainer(RefsContainer):
 
         # make sure neither an ancestor folder nor anything below this name is
         # in packed refs
-        packed_refs = self.get_packed_refs()
         self._check_no_packed_conflict(realname, filename)
 
         ensure_dir_exists(os.path.dirname(filename))
@@ -1356,7 +1355,9 @@ class DiskRefsContainer(RefsContainer):
             # This avoids fsync when ref is unchanged but still detects lock conflicts
             current_ref = self.read_loose_ref(realname)
             if current_ref is None:
-                current_ref = packed_refs.get(realname, None)
+                # (not a table fetched before the lock was taken: the cache
+                # may have been reloaded since)
+                current_ref = self.get_packed_refs().get(realname, None)
 
             if current_ref is not None and current_ref == new_ref:
                 # Ref already has desired value, abort write to avoid fsync
